@@ -1,6 +1,6 @@
 (* Case record and correspondence checker for connection-level runs (M1).  No proofs. *)
 From Passage Require Import Lib.Bytes Codec.VarInt Codec.Desc Gen.PacketsGen Gen.ConstsGen
-  Codec.PacketCheck Crypto.Cookie Conn.Types Conn.Prog Conn.Sem1.
+  Codec.PacketCheck Crypto.Cookie Conn.Types Conn.Prog Conn.Sem1 Conn.Monitor Conn.Order Conn.Checks.
 
 Record conn_case := {
   cc_cfg : conn_cfg;
@@ -17,7 +17,9 @@ Record conn_case := {
   cc_sent : list (Z * Z * bytes);
   cc_calls : list (Z * call);
   cc_outcome : outcome; cc_end : Z;
-  cc_flags : Z; cc_maxalloc : Z; cc_biggest_in : Z }.
+  cc_flags : Z; cc_maxalloc : Z; cc_biggest_in : Z;
+  cc_order : list Z;
+  cc_note : string }.      (* global order of observed sends (0) and calls (1) *)
 
 Fixpoint lookup_b {A} (k : bytes) (l : list (bytes * A)) : option A :=
   match l with [] => None | (a, v) :: r => if beq a k then Some v else lookup_b k r end.
@@ -98,8 +100,13 @@ Fixpoint calls_eqb (a b : list (Z * call)) : bool :=
   end.
 
 (* 0 fine; 1 model <> implementation; 4 outside M1 (unframed input, JSON text component) *)
+(* frames whose id VarInt is longer than one byte are mis-framed by receive_packet (it reads
+   `length - 1` body bytes): a byte-level effect, covered by M2 / C08 *)
+Definition multibyte_id (c : conn_case) : bool :=
+  existsb (fun x => match snd x with IFrame id _ => (id <? 0) || (127 <? id) | IEof => false end) (cc_inbox c).
+
 Definition corr_conn (c : conn_case) : Z :=
-  if Z.testbit (cc_flags c) 0 then 4 else
+  if Z.testbit (cc_flags c) 0 || multibyte_id c then 4 else
   let tr := case_trace c in
   match tr_sent tr with
   | None => 4
@@ -118,3 +125,134 @@ Definition corr_diag (c : conn_case) : Z :=
   (match tr_sent tr with Some ms => if sent_eqb ms (cc_sent c) then 0 else 1 | None => 1 end)
   + (if calls_eqb (tr_calls tr) (cc_calls c) then 0 else 2)
   + (match tr_end tr with Some (t, o) => (if outcome_eqb o (cc_outcome c) then 0 else 4) + (if t =? cc_end c then 0 else 8) | None => 12 end).
+
+(* ------------------------------------------------------------------------------------
+   The implementation's own trace, for evaluating the property monitors on what the real
+   code did.  Observable events (sends, adapter calls, their results, the end) are the
+   implementation's, in the order the harness saw them; events that cannot be observed
+   from outside (frame consumption, fresh values, clock reads, encryption switch, ticks)
+   are taken from the model's run and kept in their relative position. *)
+
+Definition intent_of (c : conn_case) : Z :=
+  match cc_inbox c with
+  | (_, IFrame _ b) :: _ =>
+      match dec vi vl (rkinds handshake_sb_HandshakePacket) b with
+      | Ok [_; _; _; VZ st] _ => st
+      | _ => -1
+      end
+  | _ => -1
+  end.
+
+Definition unknown_packet : packet :=
+  {| p_state := "?"; p_dir := "?"; p_name := "?"; p_id := -1; p_parsed := false; p_fields := [];
+     p_write := []; p_read := [] |}.
+
+(* which clientbound packet an observed (id, body) is: by phase *)
+Definition cb_packet (status : bool) (config : bool) (id : Z) : packet :=
+  if config then
+    (if id =? 2 then configuration_cb_DisconnectPacket
+     else if id =? 4 then configuration_cb_KeepAlivePacket
+     else if id =? 10 then configuration_cb_StoreCookiePacket
+     else if id =? 11 then configuration_cb_TransferPacket
+     else unknown_packet)
+  else if status then
+    (if id =? 0 then status_cb_StatusResponsePacket else if id =? 1 then status_cb_PongPacket else unknown_packet)
+  else
+    (if id =? 1 then login_cb_EncryptionRequestPacket
+     else if id =? 2 then login_cb_LoginSuccessPacket
+     else if id =? 5 then login_cb_CookieRequestPacket
+     else unknown_packet).
+
+Fixpoint obs_sends (status config : bool) (l : list (Z * Z * bytes)) : list tev :=
+  match l with
+  | [] => []
+  | (_, id, body) :: r =>
+      let p := cb_packet status config id in
+      let ev := match dec vi vl (rkinds p) body with
+                | Ok vs [] => TSend p vs
+                | _ => TSend unknown_packet []
+                end in
+      ev :: obs_sends status (config || (negb status && (id =? 2))) r
+  end.
+
+Definition res_for (c : conn_case) (cl : call) : cres := fst (e_res (case_env c) cl).
+
+(* merge sends and calls by the recorded global order; each call is followed by its result
+   immediately when it is an un-raced call (status, auth, localize) and before the first
+   later observable event for raced calls - for the monitors only the relative order of
+   observable events matters *)
+Fixpoint merge_obs (c : conn_case) (ord : list Z) (sends : list tev) (calls : list (Z * call))
+    (pending : option call) : list tev :=
+  match ord with
+  | [] => match pending with Some cl => [TRes cl (res_for c cl)] | None => [] end
+  | k :: ord' =>
+      if k =? 0 then
+        match sends with
+        | s :: sends' =>
+            let is_ka := match s with TSend p _ => is_pkt p configuration_cb_KeepAlivePacket | _ => false end in
+            let is_timeout_disc := false in
+            if is_ka || is_timeout_disc then s :: merge_obs c ord' sends' calls pending
+            else match pending with
+                 | Some cl => TRes cl (res_for c cl) :: s :: merge_obs c ord' sends' calls None
+                 | None => s :: merge_obs c ord' sends' calls None
+                 end
+        | [] => []
+        end
+      else
+        match calls with
+        | (_, cl) :: calls' =>
+            let pre := match pending with Some p => [TRes p (res_for c p)] | None => [] end in
+            (* a timeout localisation happens while the raced call is still pending *)
+            match cl, pending with
+            | CLocalize _ key, Some p =>
+                if beq key key_timeout then TCall cl :: TRes cl (res_for c cl) :: merge_obs c ord' sends calls' None
+                else pre ++ TCall cl :: merge_obs c ord' sends calls' (Some cl)
+            | _, _ => pre ++ TCall cl :: merge_obs c ord' sends calls' (Some cl)
+            end
+        | [] => []
+        end
+  end.
+
+Definition observable (e : tev) : bool :=
+  match e with TSend _ _ | TCall _ | TRes _ _ | TEnd _ => true | _ => false end.
+
+Fixpoint hybrid (model obs : list tev) : list tev :=
+  match model with
+  | [] => obs
+  | e :: r =>
+      if observable e then
+        match obs with
+        | ob :: obs' => ob :: hybrid r obs'
+        | [] => []
+        end
+      else match obs with
+           | [] => []
+           | [TEnd _] =>
+               (* the implementation is about to end: it consumed the frames the model consumed
+                  before its next observable action, but nothing says it drew fresh values *)
+               match e with TRecv _ _ => e :: hybrid r obs | _ => hybrid r obs end
+           | _ => e :: hybrid r obs
+           end
+  end.
+
+Definition obs_trace (c : conn_case) : list tev :=
+  let status := intent_of c =? 0 in
+  let sends := obs_sends status false (cc_sent c) in
+  let obs := merge_obs c (cc_order c) sends (cc_calls c) None ++ [TEnd (cc_outcome c)] in
+  hybrid (untime (case_trace c)) obs.
+
+Definition moni (b : bool) : Z := if b then 0 else 2.
+
+(* correspondence + the property's monitor on the implementation's trace *)
+Definition check_with (chk : oracles -> conn_cfg -> mst -> tev -> bool) (c : conn_case) : Z :=
+  let k := corr_conn c in
+  if k =? 4 then 4
+  else k + moni (accepts (step_with (chk (case_oracles c) (cc_cfg c))) m_init (obs_trace c)
+                 && negb (outcome_eqb (cc_outcome c) (OErr KPanic))).   (* a crashed handler satisfies nothing *)
+
+Definition check_c06 := check_with (fun _ _ => chk_c06).
+Definition check_c01 := check_with chk_c01.
+Definition check_c02 := check_with chk_c02.
+Definition check_c03 := check_with (fun _ _ => chk_c03).
+Definition check_c10 := check_with chk_c10.
+Definition check_order := check_with (fun _ _ => chk_true).
